@@ -118,7 +118,7 @@ Print Assumptions C19_first_attribute_counts.
 
 Theorem C19_enum_def_naming :
   forall (a : enum_def_args) (ident : str) (fs : list str),
-    enum_def_name a ident = or_default (ed_prefix a) [] ++ ident ++ or_default (ed_suffix a) (K "Iden")
+    enum_def_name a ident = or_default (ed_prefix a) [] ++ unraw ident ++ or_default (ed_suffix a) (K "Iden")
     /\ enum_def_variants fs = K "Table" :: map pascal_case fs
     /\ (forall menv inner, unquoted menv (DEnumDef a ident fs) (VVariant 0 inner)
           = Some (match ed_table_name a with Some t => t | None => snake_case ident end))
@@ -150,6 +150,30 @@ Proof.
   - exact (heck_words_nonempty s).
 Qed.
 Print Assumptions C19_snake_case_as_words.
+
+(* word boundaries are a property of the position alone: inside a maximal run of ASCII letters and
+   digits, a word starts at c (pre before it, post after it) iff c is uppercase and either the last
+   letter before c is lowercase (lower to upper), or it is uppercase and a lowercase letter follows c
+   (end of an acronym). Everything that is not an ASCII letter or digit separates runs. *)
+Theorem C19_word_boundaries_position_wise :
+  forall s : str, heck_words s = flat_map run_words (get_iterator s).
+Proof. exact heck_words_position_wise. Qed.
+Print Assumptions C19_word_boundaries_position_wise.
+
+Check (eq_refl : word_starts_at =
+  fun pre c post =>
+    negb (is_nil pre) && is_uppercase c &&
+    (is_mode_lower (last_cased pre)
+     || (is_mode_upper (last_cased pre) && match post with n :: _ => is_lowercase n | [] => false end))).
+Check (eq_refl : get_iterator = fun s => split_on (fun c => negb (is_ascii_alphanumeric c)) s).
+
+Example C19_word_boundaries_instance :
+  run_words (K "HTTPServer2Go") = [K "HTTP"; K "Server2"; K "Go"]
+  /\ word_starts_at (K "HTTP") 83 (K "erver2Go") = true      (* S after HTTP, before e: acronym ends *)
+  /\ word_starts_at (K "HTT") 80 (K "Server2Go") = false     (* P inside the acronym *)
+  /\ word_starts_at (K "HTTPServer2") 71 (K "o") = true      (* G after r2: last letter is lowercase *)
+  /\ get_iterator (K "Abc_Def") = [K "Abc"; K "Def"].
+Proof. repeat split; reflexivity. Qed.
 
 Theorem C19_snake_case_alphabet :
   forall s : str, Forall (fun c => is_lowercase c || is_dec_digit c || (c =? 95) = true) (snake_case s).
